@@ -1018,11 +1018,12 @@ pub fn gen_expr(ch: &mut Choices, cfg: &Cfg) -> (OpeningHoursExpression, String)
 /// Sentences whose matching days are years apart or sit at odd places of the calendar (leap
 /// days, ISO week 53, a date falling on a given weekday, year steps, offsets crossing the year
 /// end, Easter restricted by a week number): what long iterator jumps must not get wrong.
-pub fn gen_rare_expr(ch: &mut Choices) -> String {
-    fn rule(ch: &mut Choices) -> String {
+pub fn gen_rare_expr(ch: &mut Choices, year_hint: i32) -> String {
+    fn rule(ch: &mut Choices, year_hint: i32) -> String {
         let wd = wday_str(ch.pick(&WDAYS));
         let time = ch.pick(&["", "", " 10:00-12:00", " 20:00-26:00", " 00:00-24:00", " sunrise-sunset"]);
-        let body = match ch.draw(14) {
+        let near_year = (year_hint + ch.int(0, 3) as i32).clamp(1900, 9999);
+        let body = match ch.draw(16) {
             0 => "Feb 29".to_string(),
             1 => format!("Feb 29 {}", ch.pick(&["+1 day", "-1 day", "+2 days", "+7 days"])),
             2 => format!("Feb 29 {wd}"),
@@ -1039,7 +1040,13 @@ pub fn gen_rare_expr(ch: &mut Choices) -> String {
             10 => format!("{} Feb 29", ch.pick(&[2096u16, 2104, 2100, 2400, 9996, 2000])),
             11 => format!("week {} {wd}[{}]", ch.pick(&[1u8, 53, 52, 5, 9]), ch.pick(&["1", "-1", "5", "-5"])),
             12 => format!("{} 31 {wd}[-1]", month_str(ch.pick(&[Month::January, Month::March, Month::May, Month::December]))),
-            _ => format!("PH {}", ch.pick(&["+1 day", "-1 day", "+7 days", "+30 days", "-3 days"])),
+            13 => format!("PH {}", ch.pick(&["+1 day", "-1 day", "+7 days", "+30 days", "-3 days"])),
+            // months glued to a year, wrapping or not
+            14 => {
+                let (a, b) = ch.pick(&[(Month::November, Month::February), (Month::October, Month::May), (Month::December, Month::January), (Month::March, Month::June), (Month::December, Month::December), (Month::July, Month::June)]);
+                format!("{near_year}{}-{}", month_str(a), month_str(b))
+            }
+            _ => format!("{near_year} {} {}-{} {}", month_str(ch.pick(&MONTHS)), ch.pick(&[1u8, 15, 28, 31]), near_year + ch.int(0, 2) as i32, ch.pick(&["Jan 10", "Dec 31", "Feb 29", "Jun 30"])),
         };
         let modifier = ch.pick(&["", "", " off", " unknown", " \"x\""]);
         format!("{body}{time}{modifier}")
@@ -1051,10 +1058,10 @@ pub fn gen_rare_expr(ch: &mut Choices) -> String {
         2 => s.push_str("Mo-Fr 09:00-17:00; "),
         _ => s.push_str("2000-2200 Sa 10:00-14:00, "),
     }
-    s.push_str(&rule(ch));
+    s.push_str(&rule(ch, year_hint));
     if ch.chance(35) {
         s.push_str(ch.pick(&["; ", ", ", " || "]));
-        s.push_str(&rule(ch));
+        s.push_str(&rule(ch, year_hint));
     }
     s
 }
